@@ -141,8 +141,10 @@ class Contract:
     def __init__(self, target, requires=(), ensures=(), modifies=(), types=None, returns=None, inline=False,
                  loop_invariants=None, raises=(), allocates=False, assumed=False, hints=(), ghost_updates=(),
                  props=(), decreases=None, pure=False, note="", cases=None, call_assumes=None, at_call=None,
-                 expect_calls=None, lemma_after=None):
+                 expect_calls=None, lemma_after=None, refines=None):
         self.target = target
+        self.refines = refines          # name of the class-level contract this one refines: callers whose static receiver type is wider
+                                        # than this class use that contract, this one is for verifying the override itself
         self.requires = [self._lab(x, "pre", k) for k, x in enumerate(requires)]
         self.ensures = [self._lab(x, "post", k) for k, x in enumerate(ensures)]
         self.modifies = list(modifies)
@@ -154,6 +156,7 @@ class Contract:
         self.allocates = allocates
         self.assumed = assumed          # contract is trusted, body not verified
         self.hints = list(hints)
+        self.ghost_updates = list(ghost_updates)   # ghost statements run at every normal exit: (ghost name, object expr, value expr)
         self.props = list(props)
         self.pure = pure
         self.note = note
@@ -174,7 +177,8 @@ class Contract:
                      types=self.types, returns=self.returns, loop_invariants=self.loop_invariants,
                      raises=self.raises + list(cs.get("raises", [])), allocates=self.allocates or cs.get("allocates", False),
                      assumed=self.assumed, props=self.props, call_assumes=self.call_assumes, lemma_after=self.lemma_after,
-                     at_call={**self.at_call, **cs.get("at_call", {})}, expect_calls={**self.expect_calls, **cs.get("expect_calls", {})})
+                     at_call={**self.at_call, **cs.get("at_call", {})}, expect_calls={**self.expect_calls, **cs.get("expect_calls", {})},
+                     ghost_updates=self.ghost_updates)
         c.requires = list(self.requires) + [self._lab(x, "pre-" + cs["name"], k) for k, x in enumerate(cs.get("requires", []))]
         c.ensures = list(self.ensures) + [self._lab(x, "post-" + cs["name"], k) for k, x in enumerate(cs.get("ensures", []))]
         c.when = cs["when"]
